@@ -130,12 +130,14 @@ def eval_adverb_each2(f, a, b, backend=None):
     a = [KGChar(c) for c in a] if isinstance(a, str) else a
     b = [KGChar(c) for c in b] if isinstance(b, str) else b
     r = [f(x,y) for x,y in zip(a,b)]
+    if all(is_char(u) for u in r):
+        return ''.join(r)  # a list of characters is a string
     try:
         r = bknp.asarray(r)
     except ValueError:
         # results of different shapes: a nested list, as the other adverbs build it
         return backend.kg_asarray(r) if backend is not None else bknp.asarray(r, dtype=object)
-    return ''.join(r) if r.dtype == '<U1' else r
+    return r
 
 
 def eval_adverb_each_left(f, a, b, backend):
